@@ -371,6 +371,29 @@ example : (dns01Validate ⟨fun x => x, fun x => x ++ [1]⟩ ⟨false, 0, 0⟩ t
     ⟨.dns01, .pending, .none, s "*.example.com", s "tok", some (s "thumb"), none⟩
     (some [s "junk", s "tok.thumb" ++ [1]])).status = .valid := by decide
 
+
+/-- **dns-01 through the real validation client**: valid exactly when the lookup succeeded and one
+    TXT record, *as the name server published it*, equals base64url(SHA-256(token "." thumbprint)) —
+    a record that carries the digest inside quotes or white space is not accepted. -/
+theorem dns01_real_client_valid_only_if (h : Hash) (cfg : Cfg) (dbOk : Bool) (ch : Ch) (fail : Bool) (records : List Str)
+    (hp : ch.status = .pending) :
+    (dns01Validate h cfg dbOk ch (clientLookupTxt fail records)).status = .valid ↔
+      dbOk = true ∧ fail = false ∧ ∃ th, ch.thumb = some th ∧ h.b64 (keyAuth ch.token th) ∈ records := by
+  rw [dns01_valid_only_if h cfg dbOk ch _ hp]
+  unfold clientLookupTxt DnsAccept
+  cases fail
+  · by_cases he : records = []
+    · subst he; simp
+    · simp only [Bool.false_eq_true, he, or_self, if_false]
+      constructor
+      · rintro ⟨hd, recs, th, h1, h2, h3⟩; cases h1; exact ⟨hd, by simp, th, h2, h3⟩
+      · rintro ⟨hd, _, th, h2, h3⟩; exact ⟨hd, records, th, rfl, h2, h3⟩
+  · simp
+
+example : (dns01Validate ⟨fun x => x, fun x => x ++ [1]⟩ ⟨false, 0, 0⟩ true
+    ⟨.dns01, .pending, .none, s "example.com", s "tok", some (s "thumb"), none⟩
+    (clientLookupTxt false [[34] ++ s "tok.thumb" ++ [1, 34]])).status = .pending := by decide
+
 /-! ## 4. tls-alpn-01 -/
 
 /-- the first extension carrying the acme identifier OID is `e`, and no earlier one does -/
